@@ -274,7 +274,13 @@ func poolOf(cfg *Config) []*sim.TBlob {
 	return pool
 }
 
-func (s *session) build() error {
+func (s *session) build() (err error) {
+	defer func() {
+		if r := recover(); r != nil {
+			// a constructor that panics takes the server down at start-up
+			err = fmt.Errorf("panic while creating the store: %v", r)
+		}
+	}()
 	sto, err := s.world.Build(s.cfg.Root)
 	if err != nil {
 		return err
